@@ -214,12 +214,16 @@ def category (debug : Bool) (cat : Nat) (pre : List HLine) (names : List Nat)
     (acc.1 ++ (if acc.2.1 then [.blank] else []) ++ (if debug then [.comment cat] else []) ++ lines,
      false, r.2)
 
+/-- the lines `write_headers` obtains from the typemaps (`found` = headers written so far) -/
+def typemapLines (h : Hdr) (found : List Nat) : List HLine :=
+  if h.implField then writeHeadersNodes h.typemaps found
+  else writeIncludesForHeader h.langC h.util h.typemaps
+
 /-- `Header.write_headers(output)`: the lines appended -/
 def writeHeaders (h : Hdr) : List HLine :=
   let a0 : List HLine × Bool × List Nat := ([], true, [])
   let a1 := category h.debug 0 [] h.cxxHeader a0
-  let tl := if h.implField then writeHeadersNodes h.typemaps a1.2.2
-            else writeIncludesForHeader h.langC h.util h.typemaps
+  let tl := typemapLines h a1.2.2
   let a2 := category h.debug 1 tl h.typemapL a1
   let a3 := category h.debug 2 [] h.shroud a2
   a3.1
